@@ -9,7 +9,7 @@ from ..selftest import Mutant
 
 ID = "C11"
 TECHNIQUE = "guard dominance (K2) of every add site in the recursive walk by the four exclusion predicates, checked identically on the bzr and git siblings (K7) (ast)"
-FLOOR = 14
+FLOOR = 16
 BI = "breezy/bzr/inventorytree.py"
 GW = "breezy/git/workingtree.py"
 EXPLANATION = """
